@@ -156,6 +156,39 @@ def _run_unit(args):
             "seconds": time.time() - t0, "smt": dict(smt.STATS)}
 
 
+def _run_pool(todo, nproc):
+    """All units in a process pool.  A unit whose process dies (a native replay can crash the interpreter) must neither hang the check nor take the other units
+    with it: units left unfinished by a broken pool are re-run one per process, and the one that dies again is reported as a checker error."""
+    from concurrent.futures import ProcessPoolExecutor
+    from concurrent.futures.process import BrokenProcessPool
+    ctxm = mp.get_context("fork")
+    results = [None] * len(todo)
+
+    def died(i, why):
+        pid, name = todo[i][0], todo[i][1]
+        return {"unit": name, "records": [{"kind": "obligation", "name": "%s/__unit__" % name, "status": "error", "backend": "checker", "seconds": 0.0,
+                                           "detail": "the process running this unit died (%s)" % why, "witness": None, "functions": [], "cases": 0}],
+                "assumptions": [], "functions": {}, "seconds": 0.0, "smt": {}}
+    pending = list(range(len(todo)))
+    try:
+        with ProcessPoolExecutor(max_workers=nproc, mp_context=ctxm) as ex:
+            futs = {i: ex.submit(_run_unit_idx, i) for i in pending}
+            for i, f in futs.items():
+                try:
+                    results[i] = f.result()
+                except BrokenProcessPool:
+                    pass
+    except BrokenProcessPool:
+        pass
+    for i in [k for k in pending if results[k] is None]:
+        try:
+            with ProcessPoolExecutor(max_workers=1, mp_context=ctxm) as ex:
+                results[i] = ex.submit(_run_unit_idx, i).result()
+        except BrokenProcessPool as e:
+            results[i] = died(i, "BrokenProcessPool: %s" % e)
+    return results
+
+
 def load_known(pid):
     p = os.path.join(VERIF, "known_findings.json")
     if not os.path.exists(p):
@@ -190,9 +223,7 @@ def run_property(pid, level, units, explanation, trusted_base, min_obligations=1
     if jobs > 1 and len(todo) > 1:
         global _TODO
         _TODO = todo
-        ctxm = mp.get_context("fork")
-        with ctxm.Pool(min(jobs, len(todo))) as pool:
-            results = pool.map(_run_unit_idx, range(len(todo)), chunksize=1)
+        results = _run_pool(todo, min(jobs, len(todo)))
     else:
         results = [_run_unit(t) for t in todo]
     dump = argv[argv.index("--dump-records") + 1] if "--dump-records" in argv else None
